@@ -73,11 +73,15 @@ class Heap:
     def __getitem__(self, name):
         from .canon import snap
 
+        cat = _cat()
         if name not in self.objs:
-            self.objs[name] = _cat().HEAP[name]()
+            fn = cat.HEAP[name]
+            self.objs[name] = fn(self) if fn.__code__.co_argcount else fn()
         obj = self.objs[name]
         if name not in self.touched:
             self.touched[name] = snap(obj)
+        for dep in cat.DEPENDS.get(name, ()):  # caller-owned containers held inside a library object
+            self[dep]
         return obj
 
     def mutated(self):
